@@ -48,15 +48,16 @@ func vpH_C20_mux() {
 	}
 	w := &vpRespWriter{hdr: http.Header{}}
 	relayCalls := 0
-	vpStub("(net/http.Header).Get", func(h http.Header, key string) string {
-		switch key {
-		case "Upgrade":
-			return upgrade
-		case "Accept":
-			return accept
-		}
-		return ""
-	})
+	// the request carries the header fields in its real header map (canonical keys, as
+	// net/http delivers them), so that the code may look at them with Get, Values or directly;
+	// an empty value stands for "header absent"
+	reqHdr := http.Header{}
+	if upgrade != "" {
+		reqHdr["Upgrade"] = []string{upgrade}
+	}
+	if accept != "" {
+		reqHdr["Accept"] = []string{accept}
+	}
 	vpStub("(net/http.Header).Add", func(h http.Header, key, value string) {
 		w.events = append(w.events, "header "+key+"="+value)
 	})
@@ -80,7 +81,7 @@ func vpH_C20_mux() {
 	if hasDef {
 		mux.Default = def
 	}
-	mux.ServeHTTP(w, &http.Request{Header: http.Header{}})
+	mux.ServeHTTP(w, &http.Request{Header: reqHdr})
 
 	isUpgrade := upgrade != ""
 	isNIP11 := accept == "application/nostr+json"
@@ -133,12 +134,29 @@ func vpH_C20_mux() {
 // JSON library is the environment: Marshal records the Go value, the decoder
 // returns the corresponding generic tree with json.Number leaves.
 func vpH_C20_kind() {
+	from, to := vpInt("from"), vpInt("to")
+	// value regions, so that the witnesses run natively include bounds beyond 2^53 and negative ones
+	switch vpChoice("region", 4) {
+	case 1:
+		vpAssume(from > 1<<53 && to > 1<<53)
+	case 2:
+		vpAssume(from > 1<<53 && to == from)
+	case 3:
+		vpAssume(from < 0)
+	}
 	if !vpSymbolic() {
+		// native: the real encoder and decoder on the witness (whatever they are built from)
+		k := Nip11Kind{From: from, To: to}
+		b, err := k.MarshalJSON()
+		vpAssert(err == nil && json.Valid(b), "C20.kind-encodes")
+		var back Nip11Kind
+		vpAssert(back.UnmarshalJSON(b) == nil, "C20.kind-decodes")
+		vpAssert(back.From == from && back.To == to, "C20.kind-round-trip")
 		vpReach("end")
 		return
 	}
-	from, to := vpInt("from"), vpInt("to")
 	var encoded any
+	decodes := 0
 	nums := map[json.Number]int64{}
 	mkNum := func(v int) json.Number {
 		n := json.Number(fmt.Sprintf("n%d", len(nums)))
@@ -152,7 +170,11 @@ func vpH_C20_kind() {
 	vpStub("encoding/json.NewDecoder", func(r io.Reader) *json.Decoder { return new(json.Decoder) })
 	vpStub("(*encoding/json.Decoder).UseNumber", func(d *json.Decoder) {})
 	vpStub("(*encoding/json.Decoder).Decode", func(d *json.Decoder, v any) error {
-		out := v.(*any)
+		decodes++
+		out, isAny := v.(*any)
+		if !isAny {
+			vpUnsupported("the kind decoder does not decode into a generic value: outside the JSON environment of this harness")
+		}
 		switch x := encoded.(type) {
 		case int:
 			*out = mkNum(x)
@@ -171,7 +193,12 @@ func vpH_C20_kind() {
 
 	k := Nip11Kind{From: from, To: to}
 	b, err := k.MarshalJSON()
-	vpAssert(err == nil && string(b) == "K", "C20.kind-encodes")
+	if encoded == nil || string(b) != "K" {
+		// the encoder is not built on json.Marshal of an int / []int (hand-written text?): the
+		// engine-side environment cannot judge it; the native run of the witnesses still does
+		vpUnsupported("Nip11Kind.MarshalJSON does not go through json.Marshal: outside the JSON environment of this harness")
+	}
+	vpAssert(err == nil, "C20.kind-encodes")
 	switch x := encoded.(type) {
 	case int:
 		vpAssert(from == to && x == from, "C20.kind-single-number-only-when-equal")
@@ -181,7 +208,11 @@ func vpH_C20_kind() {
 		vpAssert(false, "C20.kind-encoding-shape")
 	}
 	var back Nip11Kind
-	vpAssert(back.UnmarshalJSON(b) == nil, "C20.kind-decodes")
+	uerr := back.UnmarshalJSON(b)
+	if decodes == 0 {
+		vpUnsupported("Nip11Kind.UnmarshalJSON does not use json.Decoder.Decode: outside the JSON environment of this harness")
+	}
+	vpAssert(uerr == nil, "C20.kind-decodes")
 	vpAssert(back.From == from && back.To == to, "C20.kind-round-trip")
 	vpReach("end")
 }
